@@ -1310,15 +1310,24 @@ func extra4bC17(c *Ctx) {
 	c.Rule(rule, "tool calls are recognised object by object: in parseToolCalls the loop that turns the collected objects into tool calls decides about each object from that object alone — no condition in its body reads a variable that the loop itself writes (the streaming handlers parse the text accumulated since the last recognised call and the non-streaming handler parses the whole output once; any memory across objects inside one invocation — a de-duplication set, a counter — makes the two disagree according to where the chunks were cut)")
 	if f := c.Fn(rule, "server", "Model.parseToolCalls"); f != nil {
 		info := f.Info()
-		// the loop whose body appends api.ToolCall values
-		var loops []*ast.RangeStmt
-		core.InspectShallow(f.Body, func(m ast.Node) bool {
-			rs, ok := m.(*ast.RangeStmt)
-			if !ok {
+		// the loop body — or the per-object callback — that builds api.ToolCall values
+		type perObject struct {
+			node ast.Node
+			body *ast.BlockStmt
+		}
+		var loops []perObject
+		ast.Inspect(f.Body, func(m ast.Node) bool {
+			var body *ast.BlockStmt
+			switch x := m.(type) {
+			case *ast.RangeStmt:
+				body = x.Body
+			case *ast.FuncLit:
+				body = x.Body
+			default:
 				return true
 			}
 			has := false
-			core.InspectShallow(rs.Body, func(k ast.Node) bool {
+			core.InspectShallow(body, func(k ast.Node) bool {
 				if cl, isL := k.(*ast.CompositeLit); isL {
 					if t := info.Types[cl].Type; t != nil && core.ObjNameOfType(t) == "api.ToolCall" {
 						has = true
@@ -1327,14 +1336,14 @@ func extra4bC17(c *Ctx) {
 				return true
 			})
 			if has {
-				loops = append(loops, rs)
+				loops = append(loops, perObject{m, body})
 			}
 			return true
 		})
 		if c.Expect(rule, "loops that build tool calls in parseToolCalls", len(loops), 1) {
 			for i, rs := range loops {
-				at, what := loopCarried(info, rs.Body)
-				pos := c.Pos(rs)
+				at, what := loopCarried(info, rs.body)
+				pos := c.Pos(rs.node)
 				if at != nil {
 					pos = c.Pos(at)
 				}
